@@ -447,6 +447,11 @@ def check_client_integers(F, R4):
                 okp = 0
                 for p_ in need:
                     sp = show(p_)
+                    rb = range_bounded(p_)
+                    if rb:
+                        okp += 1
+                        why = 'produced by iterating a range that ends at ' + rb[:60]
+                        continue
                     for (c, truth, D) in known:
                         if truth is True and isinstance(c, tuple) and c[0] == 'bin':
                             if (c[1] in ('Lt', 'Le') and show(c[2]) == sp) or (c[1] in ('Gt', 'Ge') and show(c[3]) == sp):
@@ -468,6 +473,30 @@ def check_client_integers(F, R4):
                              'an integer taken from the request (%s) %s at %s (%s) without a dominating bound: a crafted command panics the connection thread (no reply, connection reset)' %
                              (', '.join(src), what, b.loc(t.sp), txt[:80]), where=b.loc(t.sp))
     R4.floor('client-valued sinks (allocation / index / multiplication) in the remote module', n, 2)
+
+
+def range_bounded(e):
+    """a value produced by iterating `a..b` (`for i in a..b`) is always < b: returns show(b) when b is a length, else None"""
+    top = e
+    while isinstance(top, tuple) and top[0] in ('cast', 'ref'):
+        top = top[1]
+    if not (isinstance(top, tuple) and top[0] == 'proj' and isinstance(top[1], tuple) and top[1][0] == 'call' and top[1][1].endswith('Iterator::next') and top[1][2]):
+        return None
+    if tuple(top[2:4]) != ('@Some', '.0'):
+        return None
+    x = top[1][2][0]
+    for _ in range(8):
+        if isinstance(x, tuple) and x[0] == 'ref':
+            x = x[1]
+        elif isinstance(x, tuple) and x[0] == 'proj' and len(x) == 2:
+            x = x[1]
+        elif isinstance(x, tuple) and x[0] == 'call' and x[1].endswith('IntoIterator::into_iter') and x[2]:
+            x = x[2][0]
+    if isinstance(x, tuple) and x[0] == 'agg' and x[1].endswith('Range::Range') and len(x[2]) == 2:
+        so = show(x[2][1])
+        if 'len(' in so or 'PtrMetadata' in so or 'len' in so:
+            return so
+    return None
 
 
 def fold_const(e):
@@ -519,7 +548,7 @@ def phi_index_ok(cfg, E, op, at, depth=0):
             top = top[1]
         if isinstance(top, tuple) and top[0] == 'proj' and isinstance(top[1], tuple) and top[1][0] == 'call' and re.search(r'(::index|Iterator::position)$', top[1][1]):
             continue
-        if _bounded_here(cfg, E, e, bi):
+        if _bounded_here(cfg, E, e, bi) or range_bounded(e):
             continue
         return False
     return True
